@@ -35,6 +35,40 @@ def build(args):
     return {'label': label, 'cfg': cfg, 'ev': ev}
 
 
+def build_reactor(args):
+    """The gap mesh of a Reactor built from an input file (the assemblies
+    are the real ones; outer flat-to-flat and pitch from the input)."""
+    label, case = args
+    from harness import cases
+    dassh = common.import_dassh()
+    d = common.workdir('c09-' + label)
+    try:
+        try:
+            inp, r = cases.build(dassh, case, str(d))
+            cfg, ev = core_struct.reactor_events(dassh, r, case)
+        except BaseException as e:
+            cfg = {'pos': [[0, 0]], 'scps': [0], 'pitch': [0]}
+            ev = [{'e': 'BuildFailed', 'exc': type(e).__name__,
+                   'msg': str(e)[:160]}]
+        return {'label': label, 'cfg': cfg, 'ev': ev}
+    finally:
+        common.cleanup(d)
+
+
+def reactor_cases(rng, tier):
+    """Cores from input files, the duct values listed in every order."""
+    import copy
+    from harness import scenarios
+    out = []
+    for lab, c in scenarios.core_lattice(rng, tier):
+        for listing in (None, 'desc', 'outer-first'):
+            cc = copy.deepcopy(c)
+            if listing:
+                cc['ftf_listing'] = listing
+            out.append((f'reactor:{lab}:{listing or "asc"}', cc))
+    return out
+
+
 def layouts(rng, tier):
     out = []
     kinds_pool = [(0, 0), (2, 0), (3, 0), (3, 1), (4, 0)]
@@ -71,6 +105,7 @@ def run(tier, res, replay=None):
     lay = layouts(rng, tier)
     with ProcessPoolExecutor(max_workers=common.NCPU) as ex:
         traces = list(ex.map(build, lay, chunksize=8))
+        traces += list(ex.map(build_reactor, reactor_cases(rng, tier)))
     n = common.NCPU
     shards = [traces[i::n] for i in range(n)]
 
